@@ -101,7 +101,7 @@ def polls(script: dict, h: SHist) -> List[dict]:
 def simplifications(script: dict) -> Iterator[dict]:
     def clone() -> dict:
         return copy.deepcopy(script)
-    if script.get("mode") == "sweep":
+    if script.get("mode") in ("sweep", "label"):
         return
     if script.get("cpu", {}).get("on", True):
         c = clone()
